@@ -283,6 +283,8 @@ def run_case(i, rng, rec, tier, state):
         V = c["V"][:12] if len(c["V"]) > 12 else c["V"]
         if len(V) != len(c["V"]):
             return
+        if c.get("straight_corner") is not None:
+            rec.cls("polygon:straight-corner" + (":first-three-collinear" if c["straight_corner"] == 1 else ""))
         cls = cs.ConvexPolygon if (c["convex"] and rng.random() < 0.3) else cs.Polygon
         try:
             s = cls(V.copy(), normal=None if c["normal_arg"] is None else np.array(c["normal_arg"]))
